@@ -123,8 +123,10 @@ def check_panel(case, ctx):
         # the size of the second-order remainder relative to K0 c has no a-priori bound (a state in a soft bending direction has a tiny
         # linear part and a membrane-stiff quadratic part); what the statement fixes is its ORDER: halving eps quarters it.  A wrong
         # first-order term would leave a remainder that only halves.
-        if r[0] > 1e-9 * lin * 1e-3:
-            ctx.ok(r[1] <= 0.3 * r[0] + 1e-12 * lin, name + '.small-state',
+        # rounding level of fint(eps c): eps_machine times the cancellation-free size |K0| |eps c| (K0 c itself may be small by cancellation)
+        linabs = np.max(np.abs(K0).dot(np.abs(c))) or 1.
+        if r[0] > 1e-9 * linabs * 1e-3:
+            ctx.ok(r[1] <= 0.3 * r[0] + 1e-12 * linabs, name + '.small-state',
                    'remainder does not shrink quadratically: %.3e -> %.3e' % (r[0], r[1]))
     # 4. kT is the Jacobian of the package's own fint (Richardson central difference, exact for a cubic)
     rs = np.random.RandomState(case['dirseed'])
